@@ -40,8 +40,12 @@ open Pandora.C19
 #print axioms Pandora.C19C05.checkPipelineSection_of_checked
 #print axioms Pandora.C19C05.checked_of_checkPipelineSection
 #print axioms Pandora.C19C05.runPipeline_checked
+#print axioms Pandora.C19C05.saved_pipeline_fixpoint_run
 #print axioms Pandora.C19C05.saved_config_replays_run
 #print axioms Pandora.C19C05.source_saved_config_replays_run
+#print axioms Pandora.C19C05.saved_config_replays_any
+#print axioms Pandora.C19C05.source_saved_config_replays_any
+#print axioms Pandora.C19C05.source_run_writes_indicator
 #print axioms Pandora.C19C05.runPipeline_id_of_no_confidence
 #print axioms Pandora.C19C05.source_refeed_spec_of_checkConf
 #print axioms Pandora.C19C05.refeed_models_agree
